@@ -556,8 +556,7 @@ func c09Gen(r *rand.Rand, tier string, i int) any {
 	if r.Intn(100) < 75 {
 		in.Root = r.Intn(nspans)
 	}
-	// rules: conditions aimed at the values of the trace; integer condition values stay within
-	// +-2^53 (see notes/C09.md: beyond that, int64 and float64 field values compare differently)
+	// rules: conditions aimed at the values of the trace (same or neighbouring numbers, also beyond 2^53)
 	nrules := 1 + r.Intn(3)
 	for k := 0; k < nrules; k++ {
 		ru := c08Rule{Name: fmt.Sprintf("r%d", k), Scope: []string{"", "trace", "span"}[r.Intn(3)]}
@@ -572,7 +571,6 @@ func c09Gen(r *rand.Rand, tier string, i int) any {
 		nc := []int{0, 1, 1, 2, 2}[r.Intn(5)]
 		for j := 0; j < nc; j++ {
 			c := c08GenCond(r, pool)
-			c09ClampCond(&c.Val)
 			ru.Conds = append(ru.Conds, c)
 		}
 		in.Rules = append(in.Rules, ru)
@@ -605,23 +603,6 @@ func c09Gen(r *rand.Rand, tier string, i int) any {
 		in.Variants = append(in.Variants, c09MakeVariant(r, in.Spans, cl))
 	}
 	return in
-}
-
-func c09ClampCond(v *rvVal) {
-	clamp := func(x *rvVal) {
-		if (x.K == "int" || x.K == "i64") && (x.I >= c09Safe || x.I <= -c09Safe) {
-			x.I = x.I % 1000
-		}
-		if x.K == "s" {
-			if n, err := strconv.ParseInt(x.S, 10, 64); err == nil && (n >= c09Safe || n <= -c09Safe) {
-				x.S = "77"
-			}
-		}
-	}
-	clamp(v)
-	for i := range v.L {
-		clamp(&v.L[i])
-	}
 }
 
 // ---------------------------------------------------------------- shrink
